@@ -1,6 +1,8 @@
 package props
 
 import (
+	"sync"
+	"sync/atomic"
 	"errors"
 	"fmt"
 	"github.com/tigerwill90/fox"
@@ -92,11 +94,64 @@ func runConc(src sim.Source, o Opts, res *Result, plan concPlan) {
 	s.KeepTrace = o.Trace
 	drawPolicy(src, s)
 	logs := make([]*taskLog, len(progs))
+	var progsLeft atomic.Int32 // (harness state shared between tasks is synchronised for the race detector's sake)
+	progsLeft.Store(int32(len(progs)))
 	for i := range progs {
 		i := i
 		logs[i] = &taskLog{}
 		s.Go(fmt.Sprintf("task%d", i), func(t *sim.Task) {
+			defer progsLeft.Add(-1) // (also when the task leaves through runtime.Goexit)
 			cw.runProgram(s, i, progs[i], logs[i])
+		})
+	}
+	// snapshots handed over by write transactions (SnapEnd 4) are read by a task of their own while the transaction
+	// that produced them goes on reading and writing: every answer of a snapshot stays what it was at first
+	var snapFail string
+	handsOff := false
+	for _, p := range progs {
+		for _, op := range p {
+			handsOff = handsOff || (op.Kind == "txn" && op.Txn.SnapAt >= 0 && op.Txn.SnapEnd == 4)
+		}
+	}
+	if handsOff {
+		res.inc("runs_with_snapshot_handed_to_another_task")
+		var handed []*fox.Txn
+		var hmu sync.Mutex
+		var nh atomic.Int32 // the scheduler evaluates wait conditions itself: they read atomics only
+		cw.handOff = func(sn *fox.Txn) { hmu.Lock(); handed = append(handed, sn); hmu.Unlock(); nh.Add(1) }
+		nhanded := func() int { return int(nh.Load()) }
+		observe := func(sn *fox.Txn) string {
+			var sb strings.Builder
+			for _, k := range cw.keys {
+				rt := sn.Route(k.Method, k.Pat.Raw)
+				fmt.Fprintf(&sb, "%v/%d ", sn.Has(k.Method, k.Pat.Raw), tagOrZero(rt))
+			}
+			for _, p := range cw.probes {
+				rt, tsr := sn.Reverse(p.Method, p.Host, p.Path)
+				fmt.Fprintf(&sb, "%d/%v ", tagOrZero(rt), tsr)
+			}
+			fmt.Fprintf(&sb, "len=%d", sn.Len())
+			return sb.String()
+		}
+		s.Go("snapreader", func(*sim.Task) {
+			for {
+				s.WaitUntil("a handed-over snapshot or the end of the programs", func() bool { return nhanded() > 0 || progsLeft.Load() == 0 })
+				if nhanded() == 0 {
+					return
+				}
+				hmu.Lock()
+				sn := handed[0]
+				handed = handed[1:]
+				hmu.Unlock()
+				nh.Add(-1)
+				first := observe(sn)
+				for r := 0; r < 3 && snapFail == ""; r++ {
+					s.Yield(sim.PtUser)
+					if again := observe(sn); again != first {
+						snapFail = fmt.Sprintf("a Snapshot() read by another task while its transaction goes on changed: %s became %s", first, again)
+					}
+				}
+			}
 		})
 	}
 	// a neighbour: a second, unrelated Router in the same process, written by its own task. Routers share nothing, so
@@ -204,6 +259,11 @@ func runConc(src sim.Source, o Opts, res *Result, plan concPlan) {
 	if neighbourFail != "" {
 		describe()
 		res.fail(res.Case["prop"].(string)+"/second-router", "%s", neighbourFail)
+		return
+	}
+	if snapFail != "" {
+		describe()
+		res.fail(res.Case["prop"].(string)+"/snapshot-changed", "%s", snapFail)
 		return
 	}
 	// non-triviality: a switch inside a writer's critical section or across a reader's load
